@@ -179,6 +179,16 @@ example : (runL demoPool (init demoPool)
     countPub 1 (toWaitingToRun 1 ++ [.handler 1 .ProcessPoolFull, .publish 1, .handler 1 .StartProcess, .publish 1,
       .handler 1 .WaitProcess, .publish 1, .handler 1 .ProcessCompletedSuccessfully, .publish 1]) = 11 := by decide
 
+/-! ## A reserved slot always comes back (seed C11-4: a start failure returned as an ordinary transition leaked it) -/
+
+/-- SLOT CONSERVATION over the regenerated tables (`Gen.emits`, `Gen.trans`): every event by which a handler of the code can
+    leave `Running` — including a start failure — is one on which the slot reserved in `WaitingToRun` is given back; an error
+    return is the thread-failure path, which gives it back too (`Next.die`, `C11_handler_final_on_every_path`).  A re-homed
+    `CannotStartProcess: Running => Broken` returned as an ordinary transition leaks the slot and breaks this `decide`. -/
+theorem C11_slot_released_on_every_exit_from_running :
+    (allEv.all fun f => (emits .Running f).all fun e =>
+      trans .Running e == some .Running || releasesSlot e) = true := by decide
+
 /-! ## The failure path of a step thread when messages cannot be delivered
 
 `Next.die` (fix K4b) gives the slot back and publishes `Broken` atomically.  The real `step_state_handler` does these things
@@ -320,6 +330,7 @@ end Relay
 #print axioms Sched.C11_guard_in_handler_table
 #print axioms Sched.C11_publications_bounded
 #print axioms Sched.C11_bounded_channels_never_block
+#print axioms Sched.C11_slot_released_on_every_exit_from_running
 #print axioms Sched.C11_handler_final_on_every_path
 #print axioms Sched.C11_lock_order
 #print axioms Sched.C11_lock_order_strict
